@@ -98,7 +98,7 @@ PROPS["C05"] = {
     "level": "proof",
     "technique": "Kani/CBMC on the real compiled macro instances: one loop-free harness per scalar type over every payload kind with full-domain symbolic u64 / i64 / f64 (complete, not bounded); contract = assume-nothing / assert-postcondition around the real function",
     "design_ref": "DESIGN.md §4 C05",
-    "units": [{"kind": "kani", "group": "scalars", "filters": _SCALAR_HARNESSES, "need_stub": True, "timeout": 1200,
+    "units": [{"kind": "kani", "group": "scalars", "filters": _SCALAR_HARNESSES, "need_stub": True, "timeout": 1200, "enumerable": False,
                "assumptions": ["alloc::fmt::format is stubbed (message text of the domain error is not inspected; only its kind, location and multiplicity)",
                                "usize/isize are 64-bit (x86_64)",
                                "String contents are proved in the Verus unit (represents: the result is the payload string); char contents beyond the empty string (str::chars / count under CBMC ran > 20 min per string) are NOT decided here; the kind part of both is full-domain"]}],
@@ -177,7 +177,7 @@ PROPS["C13"] = {
     "title": "serde_json bridge is lossless and self-consistent", "level": "proof",
     "technique": "Kani/CBMC loop-free harnesses over all u64 / i64 / f64 / bool on the real IntoValue, From<Value> and Deserr impls for serde_json::Value (complete for scalars)",
     "design_ref": "DESIGN.md §4 C13",
-    "units": [{"kind": "kani", "group": "json-scalars", "filters": ["h_json::proofs"], "need_stub": True, "timeout": 1200,
+    "units": [{"kind": "kani", "group": "json-scalars", "filters": ["h_json::proofs"], "need_stub": True, "timeout": 1200, "enumerable": False,
                "assumptions": ["serde_json is compiled as in Cargo.lock (no arbitrary_precision, no preserve_order)", "alloc::fmt::format stubbed (message of the non-finite float report not inspected)",
                                "strings, arrays and objects (heap-allocated, recursive drop glue) are NOT covered by a discharged harness at this commit: the container part of C13 is undecided here"]}],
     "text": "For every u64, every i64, every f64 bit pattern, null and both booleans: kind() of the serde_json value equals the kind of its consumed view; numbers are classified as serde_json holds them (u64 => Integer, negative i64 => NegativeInteger, finite f64 => Float bit-exact, non-finite not representable); From<Value> and the Deserr impl give back the same number / bool / null with no report; a non-finite float from another source yields exactly one Unexpected report at the given location (Deserr) or null (From). Loop-free, full domain => complete for the scalar part.",
@@ -231,10 +231,10 @@ PROPS["C12"] = {
     "technique": "Verus proves every extracted function free of panics (unwrap / panic! / index / arithmetic) under the value-source contract; Kani reports any reachable panic or overflow in the real compiled code of the scalar, serde_json-number and derive harnesses as a failed check",
     "design_ref": "DESIGN.md §A.6, §4 C12",
     "units": [{"kind": "verus", "unit": "impls"}, {"kind": "verus", "unit": "value"}, {"kind": "verus", "unit": "json_target"},
-              {"kind": "kani", "group": "json-scalars", "filters": ["h_json::proofs"], "need_stub": True, "timeout": 1200},
+              {"kind": "kani", "group": "json-scalars", "filters": ["h_json::proofs"], "need_stub": True, "timeout": 1200, "enumerable": False},
               _kd("derive-total", ["derive_camel_2", "derive_conv8_2", "derive_tagged_first"], ["derive_plain_2", "derive_lower_2", "derive_deny4_2", "derive_fns5_2", "derive_cont9", "derive_tagged_absent", "derive_tagged_not_a_map", "derive_units"]),
               _ed("derive-total", ["derive_plain_2", "derive_camel_2", "derive_lower_2", "derive_deny4_2", "derive_fns5_2", "derive_conv8_2", "derive_cont9", "derive_tagged_first", "derive_tagged_last", "derive_tagged_absent", "derive_tagged_not_a_map", "derive_units", "derive_nest"], ["derive_conv8_3"]),
-              {"kind": "kani", "group": "scalars", "filters": _SCALAR_HARNESSES, "need_stub": True, "timeout": 1200, "thorough_only": True}],
+              {"kind": "kani", "group": "scalars", "filters": _SCALAR_HARNESSES, "need_stub": True, "timeout": 1200, "thorough_only": True, "enumerable": False}],
     "text": "Unbounded part (Verus): every std container impl, take_cf_content and the value-pointer functions verify with zero errors, which includes absence of panics on every path: the `panic!` after `try_into` in [T; N] is unreachable (ret.len() == N), the `iter.next().unwrap()` / `a.unwrap()` of the tuple impls are safe (arity checked, accumulator None), `index += 1` cannot overflow -- for every payload, every well-formed value source and every answer sequence. Complete part (Kani): every serde_json Number built from any u64 / i64 / finite f64 is classified (no `panic!()` in into_value / kind); scalar impls (thorough tier). Bounded part: the derive catalogue harnesses (FieldState::unwrap is reached only with all fields Some) under Kani and by exhaustive native execution with catch_unwind, including duplicate keys from the arena value source.",
     "level_note": "Stack depth (nesting 128) is not modelled by either verifier. Derived types are bounded and sampled (see C07). A Verus message counts for C12 when its primary span is extracted repository code (not inserted ghost text) and its class is a panic class (failed precondition of a std/vstd function, arithmetic overflow, index).",
     "assumptions": _CONTAINER_ASSUME + ["derived types: bounded payloads and sampled programs, see C07-C11"],
